@@ -109,6 +109,10 @@ type Plan struct {
 	ImportFrom string
 	Name       string
 	TailCalls  bool
+	// StartFn >= 0: the module has a start function that calls f_StartFn(StartArg) and drops the result
+	StartFn  int
+	StartArg int32
+	HasStart bool
 }
 
 // Opts steer generation.
@@ -453,6 +457,10 @@ func (p *Plan) Encode() []byte {
 		wc.LocalGet(1).LocalGet(0).I64ExtendI32S().I64Add()
 		wc.LocalGet(0).LocalGet(2).I32TruncF32S().I32Add().LocalGet(3).I32TruncF64S().I32Add()
 		m.AddFunc([]wasmb.ValType{wasmb.I32, wasmb.I64, wasmb.F32, wasmb.F64}, []wasmb.ValType{wasmb.I64, wasmb.I32}, nil, wc.B, "wide")
+	}
+	if p.HasStart {
+		st := m.AddFunc(nil, nil, nil, (&wasmb.Code{}).I32Const(p.StartArg).Call(l.F0+uint32(p.StartFn)).Drop().B, "")
+		m.Start = &st
 	}
 	m.Globals = append(m.Globals, wasmb.Global{Type: wasmb.FuncRef, Mut: false, Init: wasmb.ConstRefFunc(l.Gleaf)})
 	m.Exports = append(m.Exports, wasmb.Export{Name: "mem", Kind: wasmb.KindMemory, Idx: 0})
